@@ -367,6 +367,10 @@ def gen_run(seed: int, tier: str, sub: str) -> dict:
             # every third stampede has the deepest program in it: a compilation that is in flight for
             # long (and lives on process-wide settings such as the recursion limit) while others come and go
             names = names[:1] + ['deep_chain']
+        if sns == 'main' and srot % 3 == 2 and m.get('LOOPS'):
+            # loop stampede: every thread's first calls are loops of different lengths over indices the
+            # interpreter makes (whatever it keeps of them is first filled by several callers at once)
+            names = rotate([n for n in m['LOOPS'] if n in m['SIG']], srot // 3, 3)
         for name in names:
             args = catalogue(sns, name, meta[sns]['SIG'][name])[r.randrange(4)]
             for cname in r.sample(CTX_NAMES, 2):
@@ -446,6 +450,10 @@ def gen_run(seed: int, tier: str, sub: str) -> dict:
         if rot % 2 and 'q_a16' in dnames:
             # the twins that differ only in the context their derived copies keep
             names = [n for n in names if n not in ('q_a16', 'q_b8')] + ['q_a16', 'q_b8']
+        if rot % 2 == 0 and 'zs_pos' in dnames:
+            # the twins that differ only in the sign of a zero, in either order
+            tw = ['zs_pos', 'zs_neg'] if (rot // 2) % 2 == 0 else ['zs_neg', 'zs_pos']
+            names = [n for n in names if n not in tw][:2] + tw
         picks = {name: (catalogue('main', name, m['SIG'][name])[rot % 4], r.choice(CTX_NAMES)) for name in names}
         threads = []
         for t in range(nthreads):
